@@ -422,9 +422,65 @@ def r13_2(ctx, counts: dict[str, int]) -> RuleResult:
     return res
 
 
+def r13_3(ctx, counts: dict[str, int]) -> RuleResult:
+    from ..engine.cfg import CFG
+    from ..engine.dataflow import branch_facts
+    model = ctx.model
+    res = RuleResult(
+        'R13.3', 'DIFFERENCE-REMOVES-POSITIVE',
+        'CharacterClass represents positive ∪ ¬negative. For A -= B with B a CharacterClass, '
+        'every code point of B.positive must leave the result whatever the shape of A, and the '
+        'only way to remove a member of A.positive is to shrink A.positive: on every path of '
+        '__isub__ on which `other` is a CharacterClass and self is returned, a statement '
+        '`self.positive -= other.positive` (or difference_update) is passed.')
+    cls = model.find_class('CharacterClass')
+    m = cls.methods.get('__isub__')
+    if m is None:
+        raise AnalysisError('CharacterClass.__isub__ vanished')
+    other = m.params()[1]
+    cfg = CFG(m.node)
+    facts = branch_facts(cfg)
+
+    def removes(n) -> bool:
+        a = n.ast
+        if isinstance(a, ast.AugAssign) and isinstance(a.op, ast.Sub) \
+                and dotted(a.target) == 'self.positive' \
+                and stmt_text(a.value) == f'{other}.positive':
+            return True
+        if isinstance(a, ast.Expr) and isinstance(a.value, ast.Call) \
+                and stmt_text(a.value.func) == 'self.positive.difference_update' \
+                and a.value.args and stmt_text(a.value.args[0]) == f'{other}.positive':
+            return True
+        return False
+    rets = [n for n in cfg.nodes if n.kind == 'stmt' and isinstance(n.ast, ast.Return)
+            and n.ast.value is not None and stmt_text(n.ast.value) == 'self']
+    k = 0
+    for r in rets:
+        if not any(f_.startswith(f'+isinstance({other}, ') and 'CharacterClass' in f_
+                   for f_ in facts[r.id]):
+            continue
+        k += 1
+        p = cfg.path_avoiding([cfg.entry], lambda n, r=r: n is r, removes, skip_start=False)
+        res.instances.append(f'{m.key}: return self at L{r.lineno}: every path removes '
+                             f'{other}.positive = {p is None}')
+        if p is None:
+            res.ok()
+        else:
+            res.fail(finding('R13.3', m, r.ast, 'positive not reduced',
+                             f'CharacterClass.__isub__ can return without '
+                             f'`self.positive -= {other}.positive`: members of both positive '
+                             f'sets survive the difference (e.g. [\\D5-[5]] still matches 5)',
+                             CFG.fmt_path(p)))
+    if k == 0:
+        raise AnalysisError('CharacterClass.__isub__: no `return self` under an isinstance('
+                            'other, CharacterClass) test found')
+    counts['isub_returns'] = k
+    return res
+
+
 def run(ctx) -> dict:
     counts: dict[str, int] = {}
-    results = [r13_1(ctx, counts), r13_2(ctx, counts)]
+    results = [r13_1(ctx, counts), r13_2(ctx, counts), r13_3(ctx, counts)]
     return {
         'results': results, 'counts': counts,
         'explanation':
